@@ -527,3 +527,132 @@ def r12_5(ctx, repo):
                                 ', '.join(sorted(reordered)) or 'nothing'))
     if n < 5:
         ctx.error(rule, 'only %d measurement-derived fields found' % n)
+
+
+# -----------------------------------------------------------------------------
+# R12.6 — sort_times gathers along the time axis of every filter's store
+# -----------------------------------------------------------------------------
+def _stored_rank(repo, cls):
+    """Rank of self._observations after construction: the documented input
+    has rank 3 (n_ids, n_observables, n_times); every
+    `self._observations = <f>(self._observations)[np.newaxis, ...]` in the
+    constructor chain adds the number of np.newaxis entries.  None if a
+    constructor reshapes in a way that is not understood."""
+    rank = None
+    for k in reversed(repo.mro(cls)):
+        fn = repo.cls(k).methods.get('__init__')
+        if fn is None:
+            continue
+        for s in ast.walk(fn):
+            if not (isinstance(s, ast.Assign) and U(s.targets[0]) ==
+                    'self._observations'):
+                continue
+            v = s.value
+            if isinstance(v, ast.Subscript) and 'self._observations' in U(
+                    v.value):
+                if rank is None:
+                    return None
+                elts = v.slice.elts if isinstance(v.slice, ast.Tuple) \
+                    else [v.slice]
+                if not all(U(e) in ('np.newaxis', 'None', '...', 'Ellipsis')
+                           or (isinstance(e, ast.Slice) and e.lower is None
+                               and e.upper is None) for e in elts):
+                    return None
+                rank += sum(1 for e in elts if U(e) in ('np.newaxis',
+                                                        'None'))
+            elif 'self._observations' in U(v):
+                if rank is None:
+                    return None
+                if any(isinstance(c, ast.Call) and isinstance(
+                        c.func, ast.Attribute) and c.func.attr in (
+                        'reshape', 'squeeze', 'flatten', 'ravel')
+                        for c in ast.walk(v)):
+                    return None
+            else:
+                rank = 3
+    return rank
+
+
+def r12_6(ctx, repo):
+    rule = 'R12.6'
+    n = 0
+    for cls in sorted(repo.subclasses('PopulationFilter')):
+        k, fn = repo.resolve(cls, 'sort_times')
+        if fn is None or repo.is_abstract(fn):
+            continue
+        stores = [s for s in ast.walk(fn) if isinstance(s, ast.Assign)
+                  and U(s.targets[0]) == 'self._observations']
+        if not stores:
+            continue        # composed filter: remembers the order instead
+        if repo.is_abstract(repo.resolve(cls, 'compute_log_likelihood')[1]) \
+                and cls != k:
+            continue
+        rank = _stored_rank(repo, cls)
+        construct = '%s.sort_times' % cls
+        n += 1
+        for s in stores:
+            where = repo.loc(s, k, 'sort_times')
+            v = s.value
+            hops = 0
+            scatter = None
+            while isinstance(v, ast.Name) and hops < 3:
+                name = v.id
+                # element stores into the local: a scatter
+                for a in ast.walk(fn):
+                    if isinstance(a, ast.Assign) and isinstance(
+                            a.targets[0], ast.Subscript) and U(
+                            a.targets[0].value) == name and 'order' in U(
+                            a.targets[0].slice):
+                        scatter = a
+                d = [a for a in ast.walk(fn) if isinstance(a, ast.Assign)
+                     and U(a.targets[0]) == name and a.lineno < s.lineno]
+                if not d:
+                    break
+                v = d[-1].value
+                hops += 1
+            if scatter is not None:
+                ctx.violation(
+                    rule, repo.loc(scatter, k, 'sort_times'), construct,
+                    'scatter',
+                    '`%s` places column j of the stored observations at '
+                    'position order[j]; sort_times(order) must make the new '
+                    'column j the old column order[j] (a gather, '
+                    '`observations[..., order]`): the two differ for every '
+                    'permutation that is not its own inverse' % norm_stmt(
+                        scatter)[:70])
+                continue
+            if not (isinstance(v, ast.Subscript) and U(v.value) ==
+                    'self._observations'):
+                ctx.error(rule, '%s: re-ordering `%s` not recognised' % (
+                    construct, norm_stmt(s)[:60]))
+                continue
+            elts = v.slice.elts if isinstance(v.slice, ast.Tuple) \
+                else [v.slice]
+            pos = [i for i, e in enumerate(elts) if 'order' in U(e)]
+            has_ell = any(U(e) in ('...', 'Ellipsis') for e in elts)
+            if len(pos) != 1:
+                ctx.error(rule, '%s: index `%s` not recognised' % (
+                    construct, U(v.slice)))
+                continue
+            last = pos[0] == len(elts) - 1
+            if has_ell and last:
+                ctx.ok(rule, where, construct,
+                       'the time axis (last axis of the rank-%s store) is '
+                       'gathered with order' % (rank if rank else '?'))
+            elif rank is None:
+                ctx.error(rule, '%s: rank of the stored observations not '
+                          'derived' % construct)
+            elif not has_ell and last and len(elts) == rank:
+                ctx.ok(rule, where, construct,
+                       'axis %d of the rank-%d store (the time axis) is '
+                       'gathered with order' % (pos[0], rank))
+            else:
+                ctx.violation(
+                    rule, where, construct, 'axis',
+                    '`%s` applies the time order to axis %d; %s stores its '
+                    'observations with rank %d and the measurement times on '
+                    'the last axis: the wrong axis is permuted (or the '
+                    'index raises)' % (U(v)[:60], pos[0], cls, rank))
+    if n < 4:
+        ctx.error(rule, 'only %d filters with a stored observation array '
+                  'found (floor 4)' % n)
